@@ -36,6 +36,8 @@ type Resp struct {
 	method   string
 	path     string
 	route    string
+	lastBody time.Time // when the last piece of the request body was handed to the server
+	bodyGap  time.Duration // longest pause between two pieces of the body
 }
 
 func (r *Resp) is2xx() bool { return r.Code >= 200 && r.Code < 300 }
@@ -106,6 +108,8 @@ type bodyReader struct {
 	pi      int
 	sleepMs int64
 	abortAt int // <0: never
+	lastAt  time.Time // when the last piece was handed over
+	maxGap  time.Duration // longest pause between two pieces
 }
 
 func (b *bodyReader) Read(p []byte) (int, error) {
@@ -143,6 +147,10 @@ func (b *bodyReader) Read(p []byte) (int, error) {
 	}
 	copy(p, b.data[b.pos:b.pos+n])
 	b.pos += n
+	if t := time.Now(); !b.lastAt.IsZero() && t.Sub(b.lastAt) > b.maxGap {
+		b.maxGap = t.Sub(b.lastAt)
+	}
+	b.lastAt = time.Now()
 	return n, nil
 }
 func (b *bodyReader) Close() error { return nil }
@@ -229,6 +237,7 @@ func (w *World) do(rs reqSpec) *Resp {
 	if rs.addr != "" {
 		req.RemoteAddr = rs.addr
 	}
+	var br *bodyReader
 	if rs.noBody || rs.body == nil {
 		req.Body = http.NoBody
 		req.ContentLength = 0
@@ -237,7 +246,7 @@ func (w *World) do(rs reqSpec) *Resp {
 		if rs.abort {
 			abort = rs.abortAt
 		}
-		br := &bodyReader{data: rs.body, pieces: rs.pieces, sleepMs: rs.sleepMs, abortAt: abort}
+		br = &bodyReader{data: rs.body, pieces: rs.pieces, sleepMs: rs.sleepMs, abortAt: abort}
 		req.Body = br
 		req.ContentLength = int64(len(rs.body))
 		if rs.unknownLen {
@@ -278,6 +287,9 @@ func (w *World) do(rs reqSpec) *Resp {
 		t.Tag, t.Repos = "", nil
 	}
 	resp.Code, resp.H, resp.Body = rec.Code, rec.Result().Header, rec.Body.Bytes()
+	if br != nil {
+		resp.lastBody, resp.bodyGap = br.lastAt, br.maxGap
+	}
 	if loc := resp.H.Get("Location"); resp.Code == 202 && strings.Contains(loc, "/blobs/uploads/") {
 		w.lastLoc = loc
 	}
